@@ -84,10 +84,11 @@ pub fn main(args: &[String]) -> i32 {
                 match op.as_str() {
                     "start" => {
                         // the loop of the connection reads one grant from its channel and starts the task of that room
-                        settle().await;
+                        // (a grant that the service has decided arrives within milliseconds; the waiting time only matters on a loaded machine)
+                        let wait = if c == "probe" { 8000 } else { 400 };
                         let conn = conns.get_mut(&c).unwrap();
                         let got = match conn.grant_recv.as_mut() {
-                            Some(rcv) => rcv.try_recv().ok(),
+                            Some(rcv) => tokio::time::timeout(std::time::Duration::from_millis(wait), rcv.recv()).await.ok().flatten(),
                             None => None,
                         };
                         match got {
